@@ -1208,3 +1208,58 @@ func ruleNoZeroLengthPrefix(r *Run) {
 	}
 	r.check(n >= 1, "SerializeData:length-prefix-stores", fmt.Sprintf("%d", n), "the prefix store was not found: rule needs review", w.fpos(f))
 }
+
+func init() {
+	reg := func(id, prop string) {
+		register(ruleDef{ID: id, Prop: prop, Tier: "quick", Floor: 4,
+			Title: "the per-scale update counters cover every level: in labelmap and labelarray, every function that stores into Data.MaxDownresLevel also (re)allocates Data.updates, the table indexed by scale",
+			Fn:    ruleLevelChangeResizesCounters})
+	}
+	reg("R20.35", "C20")
+	reg("R14.16", "C14")
+}
+
+func ruleLevelChangeResizesCounters(r *Run) {
+	w := r.W
+	n := 0
+	for _, f := range w.RepoFuncs {
+		p := relPkg(pkgPathOf(f))
+		if (p != "datatype/labelmap" && p != "datatype/labelarray") || len(f.Blocks) == 0 || strings.HasSuffix(w.fposFile(f), "_test.go") {
+			continue
+		}
+		var level *ssa.Store
+		resizes := false
+		for _, b := range f.Blocks {
+			for _, in := range b.Instrs {
+				st, ok := in.(*ssa.Store)
+				if !ok {
+					continue
+				}
+				fa, ok := st.Addr.(*ssa.FieldAddr)
+				if !ok {
+					continue
+				}
+				name, _, _ := fieldName(fa)
+				switch name {
+				case "MaxDownresLevel":
+					if strings.HasSuffix(fa.X.Type().String(), ".Data") {
+						level = st
+					}
+				case "updates":
+					for d := range dataDeps(st.Val) {
+						if _, isMake := d.(*ssa.MakeSlice); isMake {
+							resizes = true
+						}
+					}
+				}
+			}
+		}
+		if level == nil {
+			continue
+		}
+		n++
+		r.check(resizes, fname(f)+":level-change:resizes-update-counters", "the function also allocates the counter table",
+			"the number of down-res levels is changed without resizing the table of per-scale update counters: the next write indexes the table at a scale beyond its length — index out of range in the request (500) or in a worker goroutine (process exit)", w.pos(level.Pos()))
+	}
+	r.check(n >= 4, "label-types:level-stores", fmt.Sprintf("%d functions store MaxDownresLevel", n), "fewer than confirmed by reading: rule needs review", "-")
+}
